@@ -362,7 +362,7 @@ ParseCands(s, which) ==
                 \cup {[op |-> "parse_text", n |-> 1, fmt |-> f, kind |-> kd, idx |-> i] :
                          <<kd, i>> \in {"trunc", "del", "dup", "repl", "illegal"} \X (0..399)}
                 \cup (IF f = "edif" THEN {[op |-> "parse_text", n |-> 1, fmt |-> f, kind |-> kd, idx |-> i] :
-                                              <<kd, i>> \in {"dangle", "crosslib", "sibling"} \X (0..39)} ELSE {})
+                                              <<kd, i>> \in {"dangle", "dangle_name", "crosslib", "sibling"} \X (0..39)} ELSE {})
                 \* the same corruptions handed to the reader while the process default is the EDIF policy
                 \cup {[op |-> "parse_text", n |-> 1, fmt |-> f, kind |-> kd, idx |-> 3 * i, pol |-> "EDIF"] :
                          <<kd, i>> \in {"trunc", "del", "repl"} \X (0..133)}
@@ -498,6 +498,10 @@ ScopeTable ==
     c16_vlog |-> VlogScope({"c16_vlog"}),
     c16_eblif |-> EblifScope({"c16_eblif"}),
     c16_eblif_noname |-> [EblifScope({"c16_eblif_direct"}) EXCEPT !.init = @ \o << [op |-> "del_name", kind |-> "N", x |-> 1] >>],
+    \* an API-built netlist whose primitives do NOT live in a library called hdi_primitives: whether the EBLIF writer
+    \* accepts it or not, it is left as it was
+    c16_eblif_nolib |-> [EblifScope({"c16_eblif_direct"}) EXCEPT
+                           !.init = @ \o << [op |-> "set_name", kind |-> "L", x |-> 1, val |-> "cells"] >>],
     eblif_read |-> EblifScope({"eblif_read"}),
     eblif_rt |-> EblifScope({"eblif_rt"}),
     eblif_names |-> [EblifScope({"eblif_read", "eblif_rt"}) EXCEPT !.init = EblifNamesInit, !.ops = {"b:connect", "props:I"},
@@ -665,6 +669,16 @@ ScopeTable ==
                                  Ccreate("DP", 3, "t", 1), Ccreate("DC", 3, "m", 2),
                                  Csettopdef(1, 3), Cchild(2, "l", 1), Cchild(3, "m", 2), Cchild(3, "x", 1) >>,
                      !.ops = {"b:connect"}, !.pos = {NoPos, 0}],
+    \* as hier12_ft, but the top instance was installed with netlist.set_top_instance(<Instance>), as the EBLIF reader does
+    hier12_topm |-> [HierScope({"C12", "C11"}, {}) EXCEPT
+                     !.init = << Cnew("N", "n"), Ccreate("NL", 1, "lib", 0), Ccreate("LD", 1, "leaf", 0), Ccreate("LD", 1, "mid", 0),
+                                 Ccreate("LD", 1, "top", 0),
+                                 Ccreate("DP", 1, "i", 1),
+                                 Ccreate("DP", 2, "p", 1), Ccreate("DP", 2, "r", 1), Ccreate("DC", 2, "n", 1),
+                                 Ccreate("DP", 3, "t", 1), Ccreate("DC", 3, "m", 2),
+                                 Cnew("I", "top"), [op |-> "set_ref", i |-> 1, d |-> 3], [op |-> "set_top_m", n |-> 1, i |-> 1],
+                                 Cchild(2, "l", 1), Cchild(3, "m", 2), Cchild(3, "x", 1) >>,
+                     !.ops = {"b:connect"}],
     \* queries between edits on the same objects: connections are made and taken away while references are held
     hier12_walk |-> [HierScope({"walkq"}, {}) EXCEPT !.walk = TRUE,
                      !.init = HierInit \o << Cchild(2, "l", 1), Cchild(3, "m", 2), Cchild(3, "x", 1) >>, !.ops = {"l:connect", "disconnect"}],
